@@ -37,7 +37,7 @@ ASSUMPTIONS = [
     "distinct integer seeds are expected to give different screens; int-vs-sequence seeds with equal entropy are never compared",
 ]
 
-SEED_POOL = [0, 0, 1, 2, 7, 42, 12345, 2 ** 32, 2 ** 64 + 1, {"seq": [1, 2, 3]}]
+SEED_POOL = [0, 0, 1, 2, 7, 42, 12345, 2 ** 32, 2 ** 64 + 1, {"seq": [1, 2, 3]}, {"np": 0}, {"np": 77}]
 LIB_CALLS = ["optimal_grouping", "equivalent_layers", "circle", "ft2", "centre_of_gravity", "phase_covariance", "covmat", "cn2_to_r0"]
 
 
@@ -53,6 +53,8 @@ def sizes(tier):
 
 # ----------------------------------------------------------------------------------------------
 def _seed_key(s):
+    if isinstance(s, dict) and "np" in s:
+        return repr(int(s["np"]))            # the same seed value, only in another integer type
     return repr(s)
 
 
@@ -354,6 +356,13 @@ def execute(plan, keep_log=False):
                 if same0:
                     res.violate("unseeded", "C06:unseeded-calls-identical:%s" % si_["kind"],
                                 "unseeded actors %d and %d (%s, params %s) produced the same screen" % (i, j, si_["kind"], si_["params"]), -1)
+            elif si_["seed"] != "none" and sj_["seed"] != "none" and _seed_key(si_["seed"]) == _seed_key(sj_["seed"]) \
+                    and repr(si_["seed"]) != repr(sj_["seed"]):
+                res.count("oracle.same_seed_other_integer_type_compared")
+                if not same0:
+                    res.violate("twin", "C06:same-seed-not-reproducible:%s:integer-type" % si_["kind"],
+                                "actors %d and %d (%s): seed %r and seed %r are the same value in different integer types but give "
+                                "different screens" % (i, j, si_["kind"], si_["seed"], sj_["seed"]), -1)
             elif si_["seed"] != "none" and sj_["seed"] != "none" and _seed_key(si_["seed"]) != _seed_key(sj_["seed"]):
                 res.count("oracle.different_seed_pairs_compared")
                 if same0:
